@@ -105,6 +105,7 @@ type Ctx struct {
 	decls   map[*types.Func]*ast.FuncDecl
 	declPkg map[*types.Func]*packages.Package
 	LoadS   float64
+	taint   *taintState
 }
 
 // Load loads every package of the repository from its current working tree.
